@@ -40,7 +40,21 @@ pub fn unit_ns(u: Unit) -> i128 {
 #[inline]
 pub fn alpha(d: Duration) -> i128 {
     let (c, n) = d.to_parts();
+    if (n as i128) > NPC || (n as i128 == NPC && c != i16::MAX) {
+        // a denormalised value escaped from the implementation: remembered, and turned into a violation by the
+        // verdict that follows (report::Local::ok / dc), because alpha would otherwise hide it
+        NONCANON.with(|f| f.set(Some((c, n))));
+    }
     c as i128 * NPC + n as i128
+}
+
+thread_local! {
+    pub static NONCANON: std::cell::Cell<Option<(i16, u64)>> = const { std::cell::Cell::new(None) };
+}
+
+#[inline]
+pub fn take_noncanon() -> Option<(i16, u64)> {
+    NONCANON.with(|f| f.take())
 }
 
 #[inline]
